@@ -33,6 +33,36 @@ func (r *sharedReader) Read(name string, rd io.Reader) ([]*lisp.LVal, error) {
 	return r.real.Read(name, rd)
 }
 
+// a builtin table of the embedder, built once with plain lisp.Formals and registered in every runtime
+var sharedHostTable = []lisp.LBuiltinDef{
+	&hostFn{"host-add2", lisp.Formals("a", "b"), func(env *lisp.LEnv, args *lisp.LVal) *lisp.LVal {
+		sum := 0
+		for _, c := range args.Cells {
+			if c.Type == lisp.LInt {
+				sum += c.Int
+			}
+		}
+		return lisp.Int(sum)
+	}},
+}
+
+// sharedOp evaluates one script operation; (host-widen) is Go-level configuration of this runtime only: its owner
+// appends an optional parameter to ITS copy of host-add2's formal argument list.
+func sharedOp(env *lisp.LEnv, form string) *lisp.LVal {
+	switch form {
+	case "(host-widen)":
+		f := env.Runtime.Package.Get(lisp.Symbol("host-add2"))
+		if f.Type != lisp.LFun {
+			return f
+		}
+		f.Cells[0].Cells = append(f.Cells[0].Cells, lisp.Symbol(lisp.OptArgSymbol), lisp.Symbol("c"))
+		return lisp.Int(1)
+	case "(host-call)":
+		return env.LoadString("op", "(handler-bind ((condition (lambda (c &rest r) -1))) (host-add2 1 2 3))")
+	}
+	return env.LoadString("op", form)
+}
+
 func newSharedEnv(exprs []*lisp.LVal) (*lisp.LEnv, error) {
 	env := lisp.NewEnv(nil)
 	env.Runtime.Reader = &sharedReader{exprs: exprs, real: parser.NewReader()}
@@ -43,6 +73,7 @@ func newSharedEnv(exprs []*lisp.LVal) (*lisp.LEnv, error) {
 	if rc := env.InPackage(lisp.String(lisp.DefaultUserPackage)); rc.Type == lisp.LError {
 		return nil, fmt.Errorf("%v", rc)
 	}
+	env.AddBuiltins(true, sharedHostTable...)
 	return env, nil
 }
 
@@ -128,7 +159,7 @@ func init() {
 							v = env.Load("shared-program", strings.NewReader(""))
 							v = env.LoadString("op", "counter")
 						} else {
-							v = env.LoadString("op", form)
+							v = sharedOp(env, form)
 						}
 						results[r] = append(results[r], v.String())
 						if gated {
@@ -163,7 +194,7 @@ func init() {
 						env.Load("shared-program", strings.NewReader(""))
 						v = env.LoadString("op", "counter")
 					} else {
-						v = env.LoadString("op", form)
+						v = sharedOp(env, form)
 					}
 					solo[r] = append(solo[r], v.String())
 				}
